@@ -13,7 +13,9 @@ from vf.runner import exc_sig, hyp_run  # noqa: E402
 PROPERTY = "C19"
 LEVEL = "exploration"
 RULE = ("For every n = 0..14 (beyond the elision threshold of 10) a file of n packets with Hypothesis-generated, "
-        "pairwise distinct header values and data is listed with `spp describe-packets` (click CliRunner, in-process); "
+        "mostly distinct header values and data (some files hold byte-identical re-transmissions, interleaved APIDs "
+        "and unordered sequence counts) is listed with `spp [-v|-q|--log-level L] describe-packets` through the `spp` "
+        "group (click CliRunner, in-process, so that the rich logging handler of the entry point is installed); "
         "for `spp parse --packet i` a generated definition (header + a 32-bit marker + 0..2 further fields) is used "
         "and EVERY index 0..n+1 is requested; also `parse` without an index, and files with a truncated tail "
         "(every cut of the last packet in the thorough tier). Oracle: exit code 0 and no exception; n = 0 -> the 'No "
@@ -84,15 +86,26 @@ class Capped:
         self.packets.ccsds_generator = self.orig_pk
 
 
-def invoke(cmd_name, args, file_size):
+def invoke(cmd_name, args, file_size, global_opts=()):
+    """run `spp [global options] <command> args` in-process, the way the entry point does (the group installs the
+    rich logging handler), with the library's log records reaching that handler"""
+    import logging
     from click.testing import CliRunner
     import space_packet_parser.cli as cli
     cap = Capped()
     cap.install(file_size // 7 + 2)
+    liblog = logging.getLogger("space_packet_parser")
+    old_prop, old_level = liblog.propagate, logging.root.level
+    liblog.propagate = True
     try:
-        res = CliRunner().invoke(getattr(cli, cmd_name), args, env={"COLUMNS": "220"})
+        res = CliRunner().invoke(cli.spp, list(global_opts) + [cmd_name.replace("_", "-")] + args,
+                                 env={"COLUMNS": "220"})
     finally:
         cap.remove()
+        liblog.propagate = old_prop
+        for h in logging.root.handlers[:]:
+            logging.root.removeHandler(h)
+        logging.root.setLevel(old_level)
     return res, cap.tripped
 
 
@@ -135,8 +148,9 @@ def check_listing(ctx, case, workdir):
     ctx.cls(f"describe n={n}" + (" +truncated tail" if tail else ""))
     if n != 10:
         ctx.nontrivial(("d", case["packets"], case.get("tail", "")))
-    res, tripped = invoke("describe_packets", [path], size)
-    what = f"describe-packets on {n} packets" + (f" + {len(tail)} trailing bytes" if tail else "")
+    gopts = case.get("gopts", [])
+    res, tripped = invoke("describe_packets", [path], size, gopts)
+    what = f"spp {' '.join(gopts)} describe-packets on {n} packets" + (f" + {len(tail)} trailing bytes" if tail else "")
     if tripped:
         return ctx.fail("no-termination", f"{what}: the framer yields more packets than the file can hold", case)
     if res.exception is not None or res.exit_code != 0:
@@ -177,8 +191,9 @@ def check_parse(ctx, case, workdir):
         if i is None or i >= n - 1 or n < 10:
             ctx.nontrivial(("p", case["packets"], i))
         args = [path, xpath] + ([] if i is None else ["--packet", str(i)]) + ["--max-items", "100"]
-        res, tripped = invoke("parse", args, size)
-        what = f"parse --packet {i} on {n} packets" + (f" + {len(tail)} trailing bytes" if tail else "")
+        gopts = case.get("gopts", [])
+        res, tripped = invoke("parse", args, size, gopts)
+        what = f"spp {' '.join(gopts)} parse --packet {i} on {n} packets" + (f" + {len(tail)} trailing bytes" if tail else "")
         sub = dict(case, indices=[i])
         if tripped:
             return ctx.fail("no-termination", f"{what}: the framer yields more packets than the file can hold", sub)
@@ -186,9 +201,9 @@ def check_parse(ctx, case, workdir):
             return ctx.fail("crash", f"{what}: exit code {res.exit_code}, exception {res.exception!r}", sub,
                             bucket="parse-crash:" + (exc_sig(res.exception) if res.exception else "exit"))
         out = res.output
-        present = [m for m in marks if m in out]
+        present = sorted({m for m in marks if m in out})   # a set: re-transmitted packets share their marker
         if i is None:
-            if n <= 100 and present != marks:
+            if n <= 100 and present != sorted(set(marks)):
                 return ctx.fail("parse-all", f"{what}: markers shown {present}, expected all of {marks}", sub)
         elif i < n:
             if present != [marks[i]]:
@@ -233,7 +248,14 @@ def gen_case(draw, n, with_tail=False):
         p["mark"] = marks[i]
         p["extra"] = [draw(st.integers(0, 99)) for _ in extra]   # small values: cannot collide with a marker
         pkts.append(p)
-    case = {"packets": pkts, "extra": extra}
+    # re-transmissions: byte-identical copies of earlier packets are packets too
+    if n >= 2 and draw(st.integers(0, 2)) == 0:
+        for _ in range(draw(st.integers(1, 2))):
+            src = draw(st.integers(0, n - 1))
+            dst = draw(st.integers(0, n - 1))
+            pkts[dst] = dict(pkts[src])
+    case = {"packets": pkts, "extra": extra,
+            "gopts": draw(st.sampled_from([[], [], ["-v"], ["-q"], ["--log-level", "DEBUG"], ["--log-level", "WARNING"]]))}
     if with_tail:
         full = pk.mkpacket(1, b"\x00" * 9)
         case["tail"] = full[:draw(st.integers(1, len(full) - 1))].hex()
